@@ -59,7 +59,9 @@ def build_layout(name, blocklimit=2, docs=None):
         for d in docs[:h]:
             _add(w, d)
         w.commit()
-        w = ix.writer(codec=codec())
+        # the second segment is written with a posting pool of ~400 bytes, so the pool spills to temporary runs several times and
+        # the segment is built by the external merge sort (seed C01-3: the last, unspilled run was not merged)
+        w = ix.writer(codec=codec(), limitmb=0.0004)
         for d in docs[h:]:
             _add(w, d)
         w.commit(merge=False)
